@@ -187,8 +187,9 @@ def key_cm(line, impl, model):
 # ------------------------------------------------------------------ outgoing queues with contents, explicit clock (qm)
 
 def gen_qm(ctx, cap):
-    """histories of WriteTo / OutgoingQueue+receive / held receive / sweep with chosen clock readings:
-    the model's qstep against clientMapInner + the records' channels (in-package driver, no sleeping)"""
+    """histories of WriteTo / OutgoingQueue+receive / held receive / sweep with chosen clock readings, with
+    QueueIncoming / ReadFrom / Close interleaved: the model's qstep (every operation) against a real
+    QueuePacketConn whose client map has no sweeper of its own (in-package driver, no sleeping)"""
     rng = ctx.rng
     lines, kinds = [], []
     def add(T, ops, kind):
@@ -213,7 +214,16 @@ def gen_qm(ctx, cap):
                 ops.append("h%d" % rng.randrange(min(nq, 8) + 1))
             else:
                 ops.append("e%d" % now)
-        add(T, ops, "qm-random")
+            # every third history also uses the receive side and closes the conn somewhere (possibly twice)
+            if i % 3 == 1:
+                d = rng.random()
+                if d < 0.15:
+                    ops.append("i%d:%s" % (rng.randrange(naddr), rpayload(rng)))
+                elif d < 0.27:
+                    ops.append("r%d" % rng.choice([0, 1, 2, 64, 64]))
+                elif d < 0.33:
+                    ops.append("c")
+        add(T, ops, "qm-random-close" if i % 3 == 1 else "qm-random")
     # exhaustive short histories: two addresses, instants on the expiry boundary (timeout 10), after a
     # prefix that leaves packets queued for both
     pre = ["w0:x01@0", "w0:x02@0", "w1:x03@1"]
@@ -222,6 +232,15 @@ def gen_qm(ctx, cap):
     for k in range(1, L + 1):
         for seq in itertools.product(alpha, repeat=k):
             add(10, pre + list(seq) + ["o0@30", "o1@30", "h0", "h1"], "qm-exhaustive")
+    # Close at every position of short histories (timeout 10): after it WriteTo fails and leaves the map alone (the
+    # record is NOT refreshed, so the next sweep past last_seen + timeout removes the client although it was "written"),
+    # OutgoingQueue / held receives / sweeps go on as before, QueueIncoming drops, ReadFrom and a second Close fail
+    calpha = ["w0:x0a@5", "w1:x0b@9", "o0@9", "o1@12", "h0", "e10", "e11", "e19", "i0:x21", "r64", "c"]
+    for k in range(1, 3):
+        for seq in itertools.product(calpha, repeat=k):
+            for pos in range(k + 1):
+                add(10, pre + ["i1:x20"] + list(seq[:pos]) + ["c"] + list(seq[pos:]) + ["w0:x0c@9", "e12", "o0@30", "o1@30", "h0", "h1", "r64", "c"],
+                    "qm-close-exhaustive")
     # the periodic sweeper's schedule (period = timeout/2, every phase): a client written once, another
     # kept busy; kept with its packets at every tick before last_seen + timeout, gone at the first after
     T = 10
@@ -267,13 +286,33 @@ def prop_qm(line, impl, model):
     if len(outs) != len(ops):
         return "other: malformed answer"
     live, dead, nextq = {}, {}, 0      # addr -> [seen, qid, contents]; qid -> contents
+    inq, closed = [], False            # the receive queue; Close() was called
     for idx, (o, tok) in enumerate(zip(ops, outs)):
         try:
             res, lv, dd = tok.split("/")
         except ValueError:
             return "other: malformed answer " + tok[:80]
         want = None
-        if o[0] in "wo":
+        if o[0] == "w" and closed:
+            want = "E"                 # fails, and the map is left alone (checked below: nothing created, nothing refreshed)
+        elif o == "c":
+            want = "E" if closed else "ok"
+            closed = True
+        elif o[0] == "i":
+            ad, p = o[1:].split(":")
+            if not closed and len(inq) < cap:
+                inq.append((expand(p), ad))
+            want = "-"
+        elif o[0] == "r":
+            n = int(o[1:])
+            if closed:
+                want = "E"
+            elif not inq:
+                want = "B"
+            else:
+                p, ad = inq.pop(0)
+                want = "x%s@%s" % (p[:2 * n], ad)
+        elif o[0] in "wo":
             body, now = o[1:].rsplit("@", 1)
             now = int(now)
             ad = int(body.split(":")[0])
@@ -319,6 +358,11 @@ def prop_qm(line, impl, model):
         if dd != "e":
             for item in dd.split(";"):
                 got_dead[int(item.split("!")[0])] = item
+        if closed and o[0] == "w":
+            ad = int(o[1:].split(":")[0])
+            if (ad in got_live) != (ad in live) or (ad in live and got_live[ad][0] != live[ad][0]):
+                return "after-close: WriteTo on the closed conn touched the client map (client %d: %s) %s" % (
+                    ad, "record created" if ad not in live else "last seen %d, was %d" % (got_live[ad][0], live[ad][0]), where)
         for ad, rec in live.items():
             if ad not in got_live:
                 if o[0] == "e":
@@ -348,6 +392,10 @@ def prop_qm(line, impl, model):
             if k not in dead:
                 return "early-removal: queue %d was closed %s" % (k, where)
         if res != want:
+            if closed and (o[0] in "wr" or o == "c"):
+                return "after-close: %s answered %s, expected %s (WriteTo, ReadFrom and Close fail once the conn is closed)" % (where, res[:40], want[:40])
+            if o[0] in "ir":
+                return "fifo: %s answered %s, expected %s (receive queue: first-in-first-out, drop when full)" % (where, res[:40], want[:40])
             return "contents-lost: %s answered %s, expected %s (first-in-first-out per queue)" % (where, res[:40], want[:40])
     return None
 
@@ -800,22 +848,35 @@ def correspond_redial(ctx, exe, lines, kinds, prop_redial=None, key_redial=None,
     if rc != 0 or len(impl) != len(lines):
         ctx.violation("driver-crash", "redial driver died (rc=%s): %s" % (rc, err[-500:]), dict(case=lines[len(impl)] if len(impl) < len(lines) else None))
         impl += ["!died"] * (len(lines) - len(impl))
-    nd, multi = 0, 0
+    nd, multi, nmark = 0, 0, 0
     for l, m, r, k in zip(lines, model, impl, kinds):
         ctx.count(l, kind=k)
         if m == "!badcase":
             raise RuntimeError("model rejected case line: " + l[:200])
+        marked = m.startswith("!")
+        if marked:
+            # a marker of the MODEL adapter (coq/Run/TurbotunnelRun.v): !fuel = a run to quiescence stopped because its
+            # fuel ran out. An error of the harness, never a violation of the property and never silently compared.
+            nmark += 1
+            if nmark <= 5:
+                ctx.not_shown("harness error (not a property violation): the model adapter coq/Run/TurbotunnelRun.v answered `%s` with the "
+                              "marker %s (%s): the model has no set of outcomes for this case, so the implementation's observation was not "
+                              "compared with it; raise CLOSURE_FUEL or fix the case generator" % (
+                                  l[:300], m[:40], "a run to quiescence ran out of fuel with internal steps still enabled" if m == "!fuel" else "unknown marker"))
         bad = prop_redial(l, r, m)
         alts = m.split("|")
         multi += len(alts) > 1
         if bad:
             ctx.violation(key_redial(l, r, m), bad, dict(label=label, case=l, impl=r[:4000], model=m[:2000]))
+        elif marked:
+            pass
         elif r not in alts:
             nd += 1
             if nd <= 5:
                 ctx.not_shown("correspondence %s: the implementation's observation is not among the model's outcomes on `%s`: "
                               "model=%s impl=%s; the property predicate found no failure on it" % (label, l[:300], m[:600], r[:600]))
     ctx.extra[label + "_cases_with_several_model_outcomes"] = multi
+    ctx.extra[label + "_model_markers"] = nmark
     short = [(l, m) for l, m in zip(lines, model) if len(l) < 200 and len(m) < 1500]
     ctx.rng.shuffle(short)
     badx = vlib.coq_crosscheck(short[:25])
